@@ -7,7 +7,8 @@
      name    = VTup [VInt 0; VInt i] (part-i) | VTup [VInt 1; VInt 0] (_SUCCESS) | VTup [VInt 2; VInt k] (old-k)
      wfaults = VList [VTup [VInt call; VInt mode; VInt j]; ...]   mode 0 before, 1 after mkdir, 2 torn after j bytes
      cfaults = VList [VTup [VInt partition; VInt attempt]; ...]
-   result = VTup [outcome; final fs; VList history; VInt dump_calls; VBool locked; follow-up job; read-back]
+   result = VTup [outcome; final fs; VList history; VInt dump_calls; VBool locked; follow-up job; read-back; names]
+     names = the real file names in the final directory (from the regenerated format), in byte order
      entries of a directory in name order; read-back = VNone when not read (no marker / failed save) *)
 From Coq Require Import ZArith NArith List Bool String.
 Require Import PV.Base.Val PV.Gen.SaveOrder PV.Model.Save.
@@ -122,8 +123,12 @@ Definition observe (p : plan) (m : nat) (xs : list A) (f0 : fs) : val :=
          | Err e => VErr (exn_name e)
          end
     else VNone in
+  let names := match s_fs s1 with
+               | FDir ch => map (fun e => VStr (name_string (fst e))) (sort_entries ch)
+               | _ => []
+               end in
   VTup [enc_res r; enc_fs (s_fs s1); VList (map enc_fs (s_hist s1)); VInt (Z.of_nat (s_calls s1));
-        VBool (s_locked s1); enc_res r2; readback].
+        VBool (s_locked s1); enc_res r2; readback; VList names].
 End Observe.
 
 (* text *)
